@@ -30,19 +30,6 @@ def Accepts (vd : Nat → V → Bool) (top : NsA) (ports : PortList) (raw : Item
 def AcceptsDecl (vd : Nat → V → Bool) (top : NsA) (ports : PortList) (raw : Items) : Prop :=
   ∃ parsed, DefaultsExact ports raw parsed ∧ ConformsPort vd (.ns top ports) (some (.dict true parsed))
 
-theorem construct_ok_iff (vd : Nat → V → Bool) (top : NsA) (ports : PortList) (raw : Items) (parsed : V) :
-    construct vd top ports raw = .ok parsed ↔
-      ∃ items, preProcess ports raw = .ok items ∧
-        validatePort vd "inputs" [] (.ns top ports) (some (.dict true items)) = none ∧ parsed = .dict true items := by
-  unfold construct
-  cases hp : preProcess ports raw with
-  | error e => simp
-  | ok items =>
-    simp only [Except.ok.injEq, exists_eq_left']
-    cases hv : validatePort vd "inputs" [] (.ns top ports) (some (.dict true items)) with
-    | some e => simp
-    | none => simp [eq_comm]
-
 /-- **C11, first sentence.**  A process is constructed exactly with the inputs the spec accepts; otherwise
 construction raises (and the constructor returns no process). -/
 theorem C11_accepts_iff (vd : Nat → V → Bool) (top : NsA) (ports : PortList) (hwf : wfPorts ports = true) (raw : Items) :
